@@ -15,12 +15,17 @@ from mzverif import model as M
 
 
 def shapes(lo: int = 1, hi: int = 8, square: bool = False):
+    """(r, c); roughly uniform over sizes (sampled_from, not integers(), to avoid Hypothesis' bias towards tiny values)"""
+    sizes = list(range(lo, hi + 1))
+    big = [n for n in sizes if n >= 2] or sizes
+    sq = st.sampled_from(big).map(lambda n: (n, n))
     if square:
-        return st.integers(lo, hi).map(lambda n: (n, n))
-    return st.one_of(
-        st.integers(lo, hi).map(lambda n: (n, n)),
-        st.tuples(st.integers(lo, hi), st.integers(lo, hi)),
-    )
+        return st.one_of(sq, sq, sq, st.sampled_from(sizes).map(lambda n: (n, n)))
+    ob = st.tuples(st.sampled_from(big), st.sampled_from(big))
+    thin = st.one_of(
+        st.sampled_from(sizes).map(lambda n: (1, n)), st.sampled_from(sizes).map(lambda n: (n, 1))
+    ) if lo <= 1 else ob
+    return st.one_of(sq, sq, ob, ob, ob, thin)
 
 
 def small_shapes(maxcells_bits: int = 12):
